@@ -60,7 +60,7 @@ func VerifyPageChecksum(page []byte, blockNumber uint32) ChecksumResult {
 	result.StoredChecksum = binary.LittleEndian.Uint16(page[8:10])
 	
 	// Get LSN
-	result.LSN = binary.LittleEndian.Uint64(page[0:8])
+	result.LSN = uint64(binary.LittleEndian.Uint32(page[0:4]))<<32 | uint64(binary.LittleEndian.Uint32(page[4:8])) // pd_lsn = {xlogid, xrecoff}
 	result.LSNStr = FormatLSN(result.LSN)
 	
 	// Compute checksum
